@@ -32,7 +32,7 @@ META = {
     "note": "'Exactly once' is proved in counting form: added = queued + started and started = running + ended in every "
             "reachable state (packet_conservation), a packet starts only by being removed from its container, and at the end "
             "of a GC nothing runs, all deques/designated queues/STW queues are empty and started = ended "
-            "(gc_end_accounting). Uniqueness of packet ids is checked on every replayed GC by monitor and oracle, not proved. "
+            "(gc_end_accounting). Exactly-once is proved in full (exactly_once, ids_partition, ids_nodup, ids_classes_disjoint, runs_at_most_once: in every reachable state the packet ids added so far are partitioned into queued / running / ended with no id twice; at the end of a GC every packet has ended exactly once, except a packet still parked in a sentinel slot, which `sentinelRun` shows is reachable); packet ids are also checked on every replayed GC by monitor and oracle. "
             "Exemptions stated in the theorem file: packets pushed by mutators "
             "into closed buckets run in the next GC; Concurrent-bucket packets run after the pause.",
     "technique": "Lean 4 proof: loop invariants + transition lemmas of an n-thread model; event-log conformance monitor",
